@@ -4,7 +4,10 @@
    "feat"  features (id kinds, bbox of 4 / 6 / none, property maps, null geometry) and feature collections;
    "dec"   a bounded universe of JSON documents for the geometry decoder (wrong kinds at every level, ragged
            arrays, nulls, unknown and missing members);
-   "fdec"  documents for the Feature / FeatureCollection decoders.
+   "fdec"  documents for the Feature / FeatureCollection decoders;
+   "enc"   the documents the specification's encoder makes of every geometry, feature and feature collection of the
+           model, as decoder input (standard documents with rich content: every decoding entry point must return
+           their value; they are also the stock the seeded byte-level mutations start from).
    Design invariants: the decoder specification is total on the universe; decoding the encoder's output is the
    identity on the domain the property states (RoundTrips), features likewise. *)
 EXTENDS GeoJSON, Json, FiniteSets
@@ -55,6 +58,18 @@ BBoxes == {<<>>, <<1, 2, 3, 4>>, <<1, 2, 3, 4, 5, 6>>, <<3, 2, 1, 4>>, <<5, 2, 3
 Feats == {[id |-> i, bbox |-> b, geom |-> g, props |-> p] : i \in {"", "abc", "12"}, b \in BBoxes, g \in FGeoms, p \in Props}
 SmallFeats == {[id |-> i, bbox |-> b, geom |-> g, props |-> Null] : i \in {"", "7"}, b \in {<<>>, <<1, 2, 3, 4>>}, g \in {NOGEOM, G("PT", "XY", C("XY"))}}
 FCs == {[bbox |-> b, features |-> fs] : b \in BBoxes, fs \in UNION {[1..k -> SmallFeats] : k \in 0..2}}
+\* collections with richer members: property maps, bounding boxes of 6 numbers, every geometry type, a null geometry
+RGeoms == {NOGEOM, G("PT", "XYZ", C("XYZ")), G("LS", "XY", <<C("XY"), D("XY")>>), G("PG", "XYZ", <<<<C("XYZ"), D("XYZ"), C("XYZ")>>>>),
+           G("MPT", "XYZM", <<C("XYZM"), D("XYZM")>>), G("MLS", "XY", <<<<C("XY"), D("XY")>>, <<>>>>),
+           G("MPG", "XYZ", <<<<<<C("XYZ"), D("XYZ"), C("XYZ")>>>>, <<>>>>),
+           G("GC", "No", <<G("PT", "XY", C("XY")), G("GC", "No", <<G("LS", "L5", <<C("L5"), D("L5")>>)>>)>>)}
+RProps == {Obj(<<>>), Obj(<< <<"a", Num(1)>>, <<"b", Str("x")>>, <<"c", Null>>, <<"d", Arr(<<Num(1), Obj(<< <<"e", <<"b", TRUE>>>> >>)>>)>> >>)}
+MidFeats == {[id |-> i, bbox |-> b, geom |-> g, props |-> p] : i \in {"", "abc"}, b \in {<<>>, <<1, 2, 3, 4, 5, 6>>}, g \in RGeoms, p \in RProps}
+Mates == IF Rich THEN SmallFeats ELSE {[id |-> "7", bbox |-> <<>>, geom |-> NOGEOM, props |-> Null],
+                                       [id |-> "", bbox |-> <<1, 2, 3, 4>>, geom |-> G("PT", "XY", C("XY")), props |-> Null]}
+FCs2 == {[bbox |-> b, features |-> fs] : b \in {<<>>, <<1, 2, 3, 4, 5, 6>>},
+           fs \in {<<m>> : m \in MidFeats} \cup {<<m, s>> : m \in MidFeats, s \in Mates} \cup {<<s, m>> : m \in MidFeats, s \in Mates}
+                  \cup (IF Rich THEN {<<m, n>> : m \in MidFeats, n \in MidFeats} ELSE {})}
 \* feature documents
 FObj(id, bb, ge, pr, ty) == Obj( (IF bb = <<"absent">> THEN <<>> ELSE << <<"bbox", bb>> >>) \o (IF ge = <<"absent">> THEN <<>> ELSE << <<"geometry", ge>> >>)
                                  \o (IF id = <<"absent">> THEN <<>> ELSE << <<"id", id>> >>) \o (IF pr = <<"absent">> THEN <<>> ELSE << <<"properties", pr>> >>)
@@ -79,7 +94,10 @@ FCDocs == {Obj(<< <<"features", fs>>, <<"type", ty>> >>) :
 
 VARIABLE c
 Init == CASE Family = "geom" -> \E g \in Geoms : c = [fam |-> "geom", g |-> g]
-          [] Family = "feat" -> (\E f \in Feats : c = [fam |-> "feat", f |-> f]) \/ (\E fc \in FCs : c = [fam |-> "fc", fc |-> fc])
+          [] Family = "feat" -> (\E f \in Feats : c = [fam |-> "feat", f |-> f]) \/ (\E fc \in FCs \cup FCs2 : c = [fam |-> "fc", fc |-> fc])
+          [] Family = "enc" -> (\E g \in Geoms : c = [fam |-> "dec", kind |-> "geom", doc |-> EncGeom(g)])
+                               \/ (\E f \in Feats \cup MidFeats : c = [fam |-> "dec", kind |-> "feature", doc |-> EncFeature(f)])
+                               \/ (\E fc \in FCs \cup FCs2 : c = [fam |-> "dec", kind |-> "fc", doc |-> EncFC(fc)])
           [] Family = "dec" -> \E d \in GeomDocs : c = [fam |-> "dec", kind |-> "geom", doc |-> d]
           [] Family = "fdec" -> (\E d \in FeatDocs : c = [fam |-> "dec", kind |-> "feature", doc |-> d])
                                 \/ (\E d \in FCDocs : c = [fam |-> "dec", kind |-> "fc", doc |-> d])
@@ -89,7 +107,9 @@ Laws ==
   /\ (c.fam = "geom" => LET d == DecGeom(EncGeom(c.g)) IN RoundTrips(c.g) => d.ok /\ d.v = Canon(c.g))
   /\ (c.fam = "feat" => LET d == DecFeature(EncFeature(c.f)) IN
                          d.ok /\ d.v = [c.f EXCEPT !.geom = IF @ = NOGEOM THEN NOGEOM ELSE Canon(@)])
-  /\ (c.fam = "fc" => LET d == DecFC(EncFC(c.fc)) IN d.ok /\ d.v.bbox = c.fc.bbox /\ Len(d.v.features) = Len(c.fc.features))
+  /\ (c.fam = "fc" => LET d == DecFC(EncFC(c.fc)) IN
+                       d.ok /\ d.v.bbox = c.fc.bbox
+                       /\ d.v.features = [i \in DOMAIN c.fc.features |-> [c.fc.features[i] EXCEPT !.geom = IF @ = NOGEOM THEN NOGEOM ELSE Canon(@)]])
   /\ (c.fam = "dec" /\ c.kind = "geom" => DecGeom(c.doc).ok \in BOOLEAN)
 Emit == PrintT(<<"CASE", ToJson(c)>>)
 ====
